@@ -108,7 +108,7 @@ def _db_mean_expr(dbmodel, expression):
 
 # noinspection PyUnusedLocal
 def _db_size_expr(dbmodel, expression):
-    return "SUM(1)"
+    return "COUNT(1)"  # 0 over no rows (SUM(1) is NULL there)
 
 
 def _db_is_null_expr(dbmodel, expression):
@@ -335,9 +335,9 @@ def _db_is_in_expr(dbmodel, expression):
 def _db_count_expr(dbmodel, expression):
     """Count number of non-null entries (as in Pandas)"""
     if len(expression.args) != 1:
-        return "SUM(1)"
-    e0 = dbmodel.expr_to_sql(expression.args[0], want_inline_parens=True)
-    return f"SUM(CASE WHEN {e0} IS NOT NULL THEN 1 ELSE 0 END)"
+        return "COUNT(1)"
+    e0 = dbmodel.expr_to_sql(expression.args[0], want_inline_parens=False)
+    return f"COUNT({e0})"  # non-NULL entries, 0 over no rows
 
 
 def _db_coalesce_expr(dbmodel, expression):
